@@ -758,14 +758,25 @@ pub fn run_prover_local(run: &mut Run, o: &Objects) {
     let quick = run.ctx.quick();
     let mut report = |run: &mut Run, what: &str, bytes: &[u8], f: &mut dyn FnMut() -> Result<(), String>| {
         let (r, peak) = crate::alloc::measure(|| mzkh::catch(|| f()));
-        let cls = match r {
-            Err(_) => "PANIC".to_string(),
+        let cls = match &r {
+            Err(msg) => {
+                let n = run.notes.len();
+                if n < 40 {
+                    run.notes
+                        .entry(format!("{what}:panic:{}", msg.chars().take(60).collect::<String>()))
+                        .or_insert_with(|| format!("first input (hex, <= 64 bytes): {}", hex(&bytes[..bytes.len().min(64)])));
+                }
+                "PANIC".to_string()
+            }
             Ok(Ok(())) => "ok".to_string(),
             Ok(Err(c)) => format!("err:{c}"),
         };
         run.ctx.count(&format!("reported-only:{what}:{cls}"));
-        if peak > crate::alloc::ALLOC_C * bytes.len() + (64 << 20) {
-            run.ctx.count(&format!("reported-only:{what}:LARGE-ALLOC"));
+        if peak > crate::alloc::ALLOC_C * bytes.len() + (1 << 20) {
+            run.ctx.count(&format!("reported-only:{what}:alloc>64*len+1MiB"));
+            run.notes
+                .entry(format!("{what}:alloc"))
+                .or_insert_with(|| format!("peak {peak} bytes for {} input bytes, first bytes {}", bytes.len(), hex(&bytes[..bytes.len().min(16)])));
         }
     };
     // full parameter set of k = 3 (small), both formats
@@ -782,7 +793,7 @@ pub fn run_prover_local(run: &mut Run, o: &Objects) {
             cases.push(h[..t].to_vec());
         }
         // the k word: only values whose 2^k points stay small or whose shift overflows
-        for v in [0u8, 1, 2, 4, 5, 10, 12, 64, 65, 128, 255] {
+        for v in [0u8, 1, 2, 4, 5, 10, 12, 16, 64, 65, 128, 255] {
             cases.push(mutate::subst_byte(&h, 0, v));
         }
         for i in 1..4 {
